@@ -101,7 +101,9 @@ func c07Context(log *[]int) *plush.Context {
 var c07CondVals = []struct {
 	src    string
 	truthy bool
-}{{"true", true}, {"false", false}, {"0", true}, {`""`, false}, {`"a"`, true}, {"nil", false}}
+	bare   bool // not routed through the counting helper
+}{{"true", true, false}, {"false", false, false}, {"0", true, false}, {`""`, false, false}, {`"a"`, true, false}, {"nil", false, false},
+	{"nope", false, true}, {"!nope", true, true}}
 
 func init() {
 	engine.Register(&engine.Prop{
@@ -118,9 +120,9 @@ func init() {
 			return s
 		},
 		Run:  c07Run,
-		Rule: "matrix: 75 subjects (43 injected value kinds incl. nil pointer/map/slice/func and empty HTML, unknown identifier, literals, field/index/helper/user-function results) x 14 syntactic contexts (if, silent if, else-if, !, !!, && and || on either side, if(!x), if(x && 1), inside for / fn / helper block): every context must report the truth value given by the statement's table (which makes them agree with each other). chains: if + k else-if (+ else), k<=3, every assignment of condition values from {true,false,0,\"\",\"a\",nil} through a counting helper, blocks as text or as return, at top level and inside for / fn / helper block: exactly the first truthy block (or else / nothing) is rendered and conditions 0..j are evaluated once each, none after j. Non-trivial: all cases.",
+		Rule: "matrix: 80 subjects (48 injected value kinds incl. nil pointer/map/slice/func and empty HTML, unknown identifier, literals, field/index/helper/user-function results) x 14 syntactic contexts (if, silent if, else-if, !, !!, && and || on either side, if(!x), if(x && 1), inside for / fn / helper block): every context must report the truth value given by the statement's table (which makes them agree with each other). chains: if + k else-if (+ else), k<=3, every assignment of condition values from {true,false,0,\"\",\"a\",nil} through a counting helper plus the bare conditions nope / !nope (unknown identifier), blocks as text or as return, at top level and inside for / fn / helper block: exactly the first truthy block (or else / nothing) is rendered and conditions 0..j are evaluated once each, none after j. Non-trivial: all cases.",
 		Bound: func(th bool) string {
-			return "matrix complete; chains with up to 3 else-if branches, 6 condition values, 4 placements, 2 block styles"
+			return "matrix complete; chains with up to 3 else-if branches, 8 condition values, 4 placements, 2 block styles"
 		},
 	})
 }
@@ -182,9 +184,16 @@ func c07Run(t *engine.T, shard string) {
 			}
 			return ` %>` + name + `<% `
 		}
-		sb.WriteString(`<%= if (c(0, ` + c07CondVals[vals[0]].src + `)) {` + blockOf("B0") + `}`)
+		cond := func(i int) string {
+			cv := c07CondVals[vals[i]]
+			if cv.bare {
+				return cv.src
+			}
+			return fmt.Sprintf("c(%d, %s)", i, cv.src)
+		}
+		sb.WriteString(`<%= if (` + cond(0) + `) {` + blockOf("B0") + `}`)
 		for i := 1; i < nc; i++ {
-			sb.WriteString(fmt.Sprintf(` else if (c(%d, %s)) {%s}`, i, c07CondVals[vals[i]].src, blockOf(fmt.Sprintf("B%d", i))))
+			sb.WriteString(fmt.Sprintf(` else if (%s) {%s}`, cond(i), blockOf(fmt.Sprintf("B%d", i))))
 		}
 		if hasElse {
 			sb.WriteString(` else {` + blockOf("E") + `}`)
@@ -198,12 +207,18 @@ func c07Run(t *engine.T, shard string) {
 			}
 		}
 		want := ""
-		wantLog := nc
+		upto := nc
 		if first >= 0 {
 			want = fmt.Sprintf("B%d", first)
-			wantLog = first + 1
+			upto = first + 1
 		} else if hasElse {
 			want = "E"
+		}
+		var wantLog []int // counted conditions among 0..first
+		for i := 0; i < upto; i++ {
+			if !c07CondVals[vals[i]].bare {
+				wantLog = append(wantLog, i)
+			}
 		}
 		for _, pl := range placements {
 			src := "<" + pl.pre + sb.String() + pl.post + ">"
@@ -217,13 +232,8 @@ func c07Run(t *engine.T, shard string) {
 				if out != expect {
 					return "", engine.Failf("mismatch", "expected %q, got %q", expect, out)
 				}
-				if len(log) != wantLog {
-					return "", engine.Failf("conditions", "conditions evaluated %v, expected exactly 0..%d once each", log, wantLog-1)
-				}
-				for i, v := range log {
-					if v != i {
-						return "", engine.Failf("conditions", "conditions evaluated %v, expected exactly 0..%d in order", log, wantLog-1)
-					}
+				if fmt.Sprint(log) != fmt.Sprint(wantLog) {
+					return "", engine.Failf("conditions", "counted conditions evaluated %v, expected exactly %v once each in order", log, wantLog)
 				}
 				return fmt.Sprintf("first=%d", first), nil
 			})
